@@ -1,4 +1,5 @@
 (** C17: one cursor. *)
+From Coq Require Import Wf_nat.
 Require Import CF.Proofs.Tac CF.Model.Text CF.Model.Records CF.Model.Reader CF.Model.Sections CF.Model.Ops
   CF.Proofs.SectionsFacts.
 
@@ -101,4 +102,50 @@ Theorem sections_no_lookahead ln rs sec it' rest :
 Proof.
   unfold sections_next; cbn [sst sln]. intros H. apply sloop_consumes in H as (pre & -> & pre0 & rl & d & -> & H1 & H2 & ds & H3); [|exact I].
   exists pre0, rl, d, ds. rewrite <- app_assoc. auto.
+Qed.
+
+(** ---------- C05: every yielded section, also after errors, is a run of consecutive input lines ---------- *)
+Definition is_run (sec : section) (run : list rawres) : Prop :=
+  map classify run = RHdr (shdr sec) :: map RData (sdata sec).
+
+Lemma sloop_reading_run rs : forall s ln sec it' rest,
+  sloop (Some s) Reading ln rs = Val (Some (Ok sec), it', rest) ->
+  exists run more, rs = run ++ rest /\ map classify run = map RData more /\ sec = {| shdr := shdr s; sdata := sdata s ++ more |}.
+Proof.
+  induction rs as [|x rs IH]; intros s ln sec it' rest; cbn [sloop]; [discriminate|].
+  destruct (classify x) as [|h|d|e t|e] eqn:C; cbn [get_state upd]; try discriminate.
+  destruct (dterm d) eqn:T.
+  - cbn [sdata]. destruct (sdata s ++ [d]) eqn:E; [discriminate|]. intros [= <- <- <-].
+    exists [x], [d]. cbn [map app]. rewrite C, <- E. auto.
+  - intros H. apply IH in H as (run & more & -> & Hm & ->). exists (x :: run), (d :: more). cbn [map app shdr sdata].
+    rewrite C, Hm, <- app_assoc. auto.
+Qed.
+
+Lemma next_between_run ln rs sec it' rest :
+  sections_next {| sst := InBetween; sln := ln |} rs = Val (Some (Ok sec), it', rest) ->
+  exists blanks run, rs = blanks ++ run ++ rest /\ Forall (fun r => classify r = RBlank) blanks /\ is_run sec run.
+Proof.
+  unfold sections_next; cbn [sst sln]. revert ln. induction rs as [|x rs IH]; intros ln; cbn [sloop]; [discriminate|].
+  destruct (classify x) as [|h|d|e t|e] eqn:C; cbn [get_state upd]; try discriminate.
+  - intros H. apply IH in H as (blanks & run & -> & Hb & Hr). exists (x :: blanks), run. repeat split; auto.
+  - intros H. apply sloop_reading_run in H as (run & more & -> & Hm & ->). exists [], (x :: run). cbn [app]. repeat split; auto.
+    unfold is_run. cbn [map shdr sdata app]. rewrite C, Hm. reflexivity.
+Qed.
+
+Theorem sdrain_sections_are_runs : forall rs ln fuel items, (length rs + 1 < fuel)%nat ->
+  sdrain fuel {| sst := InBetween; sln := ln |} rs = Val (items, true) ->
+  forall sec, In (Ok sec) items -> exists pre run post, rs = pre ++ run ++ post /\ is_run sec run.
+Proof.
+  intros rs. remember (length rs) as n eqn:En. revert rs En.
+  induction n as [n IHn] using lt_wf_ind. intros rs En ln fuel items Hf.
+  destruct fuel as [|fuel]; [lia|]. rewrite sdrain_S.
+  destruct (next_between ln rs) as (r & it' & rest & E & Hst & Hle & Hlt & Hnone). rewrite E.
+  destruct r as [it|]; [|intros [= <-] sec []].
+  assert (Hr: (length rest < length rs)%nat) by (apply Hlt; congruence).
+  destruct it' as [st' ln']; cbn [sst] in Hst; subst st'.
+  destruct (sdrain_finite rest ln' fuel ltac:(lia)) as (its & E2 & _). rewrite E2. intros [= <-] sec [Hin|Hin].
+  - subst it. apply next_between_run in E as (blanks & run & -> & _ & Hrun). exists blanks, run, rest. auto.
+  - unfold sections_next in E. cbn [sst sln] in E. destruct (sloop_prefix _ _ _ _ _ _ _ E) as (pre0 & ->).
+    destruct (IHn (length rest) ltac:(lia) rest eq_refl ln' fuel its ltac:(lia) E2 sec Hin) as (pre & run & post & -> & Hrun).
+    exists (pre0 ++ pre), run, post. rewrite <- app_assoc. auto.
 Qed.
